@@ -144,6 +144,7 @@ type c19Item struct {
 type c19Prog struct {
 	small bool // a 4-5 file program (option sweep) instead of the many-entries one
 	dup   bool // two files in different directories share a base name (never included by one file)
+	cont  bool // the root mentions its includes only inside containers (list/set/map key/map value, nested) of method / operation types
 	sib   bool // sibling directories that include each other: a diamond reached through different relative spellings
 	seed  uint64
 	paths []string // relative path of file i; 0 is the root
@@ -330,6 +331,11 @@ func (g *c19Gen) add(file int, kind, text string) {
 func (g *c19Gen) genFile(i int, incs []int, vendored map[int]bool, big bool) {
 	r := g.r
 	me := g.syms[i]
+	// cont programs: the root mentions its includes ONLY inside containers of method / operation types
+	tyIncs := incs
+	if g.p.cont && i == 0 {
+		tyIncs = nil
+	}
 	cnt := func(lo, hi int) int {
 		if big {
 			return 12 + r.Intn(5)
@@ -465,8 +471,8 @@ func (g *c19Gen) genFile(i int, incs []int, vendored map[int]bool, big bool) {
 			}
 			fallthrough
 		case 4:
-			if len(incs) > 0 {
-				o := g.syms[incs[r.Intn(len(incs))]]
+			if len(tyIncs) > 0 {
+				o := g.syms[tyIncs[r.Intn(len(tyIncs))]]
 				if len(o.iconsts) > 0 {
 					decls = append(decls, c19Item{file: i, kind: "const", text: fmt.Sprintf("const i32 %s = %s.%s\n", name, o.name, o.iconsts[r.Intn(len(o.iconsts))])})
 					me.iconsts = append(me.iconsts, name)
@@ -495,7 +501,7 @@ func (g *c19Gen) genFile(i int, incs []int, vendored map[int]bool, big bool) {
 		if big && r.Chance(20) {
 			nf = 14
 		}
-		decls = append(decls, c19Item{file: i, kind: "struct", text: g.doc(30, "") + fmt.Sprintf("struct %s {\n%s}%s\n", name, g.fields(me, incs, nf, false), g.anns(20))})
+		decls = append(decls, c19Item{file: i, kind: "struct", text: g.doc(30, "") + fmt.Sprintf("struct %s {\n%s}%s\n", name, g.fields(me, tyIncs, nf, false), g.anns(20))})
 		me.structs = append(me.structs, name)
 	}
 	if g.p.sib { // container-typed fields: their generated code numbers temporaries per generator object
@@ -504,11 +510,11 @@ func (g *c19Gen) genFile(i int, incs []int, vendored map[int]bool, big bool) {
 		me.structs = append(me.structs, name)
 	}
 	for _, name := range unames {
-		decls = append(decls, c19Item{file: i, kind: "union", text: fmt.Sprintf("union %s {\n%s}%s\n", name, g.fields(me, incs, 2+r.Intn(4), true), g.anns(10))})
+		decls = append(decls, c19Item{file: i, kind: "union", text: fmt.Sprintf("union %s {\n%s}%s\n", name, g.fields(me, tyIncs, 2+r.Intn(4), true), g.anns(10))})
 		me.unions = append(me.unions, name)
 	}
 	for _, name := range xnames {
-		decls = append(decls, c19Item{file: i, kind: "exception", text: g.doc(20, "") + fmt.Sprintf("exception %s {\n%s}%s\n", name, g.fields(me, incs, 1+r.Intn(3), false), g.anns(10))})
+		decls = append(decls, c19Item{file: i, kind: "exception", text: g.doc(20, "") + fmt.Sprintf("exception %s {\n%s}%s\n", name, g.fields(me, tyIncs, 1+r.Intn(3), false), g.anns(10))})
 		me.excs = append(me.excs, name)
 	}
 	for k := 0; k < nSvc; k++ {
@@ -517,7 +523,7 @@ func (g *c19Gen) genFile(i int, incs []int, vendored map[int]bool, big bool) {
 		if r.Chance(60) {
 			var cands []string
 			cands = append(cands, me.services...)
-			for _, j := range incs {
+			for _, j := range tyIncs {
 				for _, s := range g.syms[j].services {
 					cands = append(cands, g.syms[j].name+"."+s)
 				}
@@ -537,18 +543,18 @@ func (g *c19Gen) genFile(i int, incs []int, vendored map[int]bool, big bool) {
 			if r.Chance(12) {
 				oneway = "oneway "
 			} else if r.Chance(75) {
-				ret = g.ty(me, incs, 0)
+				ret = g.ty(me, tyIncs, 0)
 			}
 			args := []string{}
 			na := r.Intn(4)
 			for a := 0; a < na; a++ {
-				args = append(args, fmt.Sprintf("%d: %s %s", a+1, g.ty(me, incs, 0), g.id("x")))
+				args = append(args, fmt.Sprintf("%d: %s %s", a+1, g.ty(me, tyIncs, 0), g.id("x")))
 			}
 			throws := ""
 			if oneway == "" && r.Chance(40) {
 				var xs []string
 				xs = append(xs, me.excs...)
-				for _, j := range incs {
+				for _, j := range tyIncs {
 					for _, x := range g.syms[j].excs {
 						xs = append(xs, g.syms[j].name+"."+x)
 					}
@@ -587,13 +593,47 @@ func (g *c19Gen) genFile(i int, incs []int, vendored map[int]bool, big bool) {
 		}
 		body := ""
 		for q := 0; q < no; q++ {
-			t := g.structTy(me, incs)
+			t := g.structTy(me, tyIncs)
 			if r.Chance(15) {
-				t = g.ty(me, incs, 0)
+				t = g.ty(me, tyIncs, 0)
 			}
 			body += g.doc(20, "    ") + fmt.Sprintf("    %s: %s%s\n", g.id("Op"), t, g.anns(10))
 		}
 		decls = append(decls, c19Item{file: i, kind: "scope", text: g.doc(30, "") + fmt.Sprintf("scope %s%s {\n%s}%s\n", name, prefix, body, g.anns(10))})
+	}
+	if g.p.cont && i == 0 {
+		// one service and one scope per include; the include appears only inside a container:
+		// list / set element, map key, map value, nested
+		for k, j := range incs {
+			o := g.syms[j]
+			key := "i32"
+			if len(o.enums) > 0 {
+				key = o.name + "." + o.enums[0]
+			} else if len(o.typedefs) > 0 {
+				key = o.name + "." + o.typedefs[0]
+			}
+			val := "string"
+			if len(o.structs) > 0 {
+				val = o.name + "." + o.structs[0]
+			}
+			var t1, t2 string
+			switch k % 5 {
+			case 0:
+				t1, t2 = "map<"+key+", string>", "map<"+key+", i64>" // map KEY only
+			case 1:
+				t1, t2 = "map<string, "+val+">", "list<"+val+">"
+			case 2:
+				t1, t2 = "set<"+key+">", "list<list<"+val+">>"
+			case 3:
+				t1, t2 = "map<i32, map<"+key+", list<string>>>", "map<"+key+", "+val+">"
+			default:
+				t1, t2 = "list<map<"+key+", string>>", "map<string, set<"+key+">>"
+			}
+			sv := g.id("Sv")
+			decls = append(decls, c19Item{file: i, kind: "service", text: fmt.Sprintf("service %s {\n    %s %s(1: %s %s),\n    void %s(1: %s %s),\n}\n", sv, t2, g.id("m"), t1, g.id("x"), g.id("m"), t2, g.id("x"))})
+			me.services = append(me.services, sv)
+			decls = append(decls, c19Item{file: i, kind: "scope", text: fmt.Sprintf("scope %s prefix cont.{%s} {\n    %s: %s\n    %s: %s\n}\n", g.id("Sc"), g.id("u"), g.id("Op"), t1, g.id("Op"), t2)})
+		}
 	}
 	// shuffle declaration order, except that a struct must follow the structs it may
 	// contain by value: keep structs' relative order
@@ -633,6 +673,8 @@ var c19Dirs = []string{"", "", "sub1", "sub1/deep", "sub2", "lib/x", "lib/x/y", 
 func (p *c19Prog) seedToken() string {
 	c := "s"
 	switch {
+	case p.cont:
+		c = "x"
 	case p.sib:
 		c = "w"
 	case p.small && p.dup:
@@ -646,7 +688,7 @@ func (p *c19Prog) seedToken() string {
 }
 
 func c19FromToken(tok string) (*c19Prog, bool) {
-	if len(tok) < 2 || !strings.ContainsRune("stuvw", rune(tok[0])) {
+	if len(tok) < 2 || !strings.ContainsRune("stuvwx", rune(tok[0])) {
 		return nil, false
 	}
 	seed, err := strconv.ParseUint(tok[1:], 10, 64)
@@ -655,6 +697,9 @@ func c19FromToken(tok string) (*c19Prog, bool) {
 	}
 	if tok[0] == 'w' {
 		return c19GenerateSib(seed), true
+	}
+	if tok[0] == 'x' {
+		return c19GenerateCont(seed), true
 	}
 	return c19GenerateKind(seed, tok[0] == 't' || tok[0] == 'v', tok[0] == 'u' || tok[0] == 'v'), true
 }
@@ -667,17 +712,20 @@ func c19GenerateSized(seed uint64, small bool) *c19Prog { return c19GenerateKind
 // the root a/main includes inner/f03 directly and b/f02, which includes ../a/inner/f03 (and a/f01
 // likewise): files reached through DIFFERENT relative spellings, some climbing above the root's directory.
 func c19GenerateSib(seed uint64) *c19Prog {
-	p := c19GenerateKindSib(seed, true, false, true)
+	p := c19GenerateKindSib(seed, true, false, true, false)
 	return p
 }
 
+// c19GenerateCont: a small program whose root file mentions its includes only inside containers.
+func c19GenerateCont(seed uint64) *c19Prog { return c19GenerateKindSib(seed, true, false, false, true) }
+
 func c19GenerateKind(seed uint64, small, dup bool) *c19Prog {
-	return c19GenerateKindSib(seed, small, dup, false)
+	return c19GenerateKindSib(seed, small, dup, false, false)
 }
 
-func c19GenerateKindSib(seed uint64, small, dup, sib bool) *c19Prog {
+func c19GenerateKindSib(seed uint64, small, dup, sib, cont bool) *c19Prog {
 	r := NewRng(seed)
-	g := &c19Gen{r: r, p: &c19Prog{seed: seed, small: small, dup: dup, sib: sib}}
+	g := &c19Gen{r: r, p: &c19Prog{seed: seed, small: small, dup: dup, sib: sib, cont: cont}}
 	n := 14 + r.Intn(6)
 	if small {
 		n = 4 + r.Intn(2)
@@ -1530,6 +1578,23 @@ func c19TaskFiles(p *c19Prog, files map[string]string, gen string, R int, inproc
 		derived = c19DerivePkgs(layouts[0].outAbs)
 	}
 	c19Adversarial(base, derived)
+	if strings.HasPrefix(gen, "go") && runs[0].err == "" {
+		if bad := c19UnimportedRefs(layouts[0].outAbs); len(bad) > 0 {
+			res.runs = 1
+			res.detail["line"] = line
+			res.detail["target"] = gen
+			res.what = "c19: emitted Go refers to a package it does not import — the import is left for goimports to find around the working directory: target=" + gen
+			if len(bad) > 5 {
+				bad = bad[:5]
+			}
+			res.detail["unimported"] = bad
+			res.detail["run_a"] = runs[0].desc
+			if len(files) <= 6 {
+				res.detail["program"] = files
+			}
+			return res
+		}
+	}
 	if c19ParallelRuns || (strings.HasPrefix(gen, "go") && !p.small) { // replays, shrinking, and the slow big-program go tasks: the R processes side by side
 		var wg sync.WaitGroup
 		for i := range layouts {
@@ -1675,6 +1740,149 @@ var c19OtherTarget = map[string]string{"go": "java", "java": "go", "dart": "py:t
 
 var c19HistVariants = []string{"opts", "sup", "sub", "target", "twice"}
 
+// c19GoModuleGen: the -gen value a Go user of module example.com/project generating into ./gen would use.
+func c19GoModuleGen(gen string) string {
+	lang, opts := c19Lang(gen)
+	var keep []string
+	if opts != "-" {
+		for _, o := range strings.Split(opts, ",") {
+			if !strings.HasPrefix(o, "package_prefix") {
+				keep = append(keep, o)
+			}
+		}
+	}
+	keep = append(keep, "package_prefix=example.com/project/gen/")
+	return lang + ":" + strings.Join(keep, ",")
+}
+
+// c19GoModule: the realistic layout of a Go user — cwd = the root of a Go module, `-r -out gen` inside
+// it, package_prefix = <module path>/gen/ — compiled TWICE without cleaning, and once in a fresh copy
+// of the module: run 1 = run 2 = fresh (goimports resolves unresolved packages from the module around
+// the cwd, where the first run has just put the generated packages).
+func c19GoModule(p *c19Prog, keep []bool, gen string) c19Result {
+	res := c19Result{detail: map[string]interface{}{}}
+	res.detail["line"] = fmt.Sprintf("c19hist %s %s gomodule %s", p.seedToken(), gen, c19KeepString(keep))
+	res.detail["target"] = gen
+	res.detail["history"] = "gomodule"
+	mgen := c19GoModuleGen(gen)
+	res.detail["compiled_as"] = "cd <module example.com/project>; frugal -gen " + mgen + " -r -out gen <root>   (twice, and once in a fresh copy of the module)"
+	base, err := os.MkdirTemp("", "verif-c19m-")
+	if err != nil {
+		res.invalid = err.Error()
+		return res
+	}
+	defer os.RemoveAll(base)
+	files, _ := p.render(keep)
+	src := filepath.Join(base, "idl")
+	c19WriteTree(src, files)
+	run := func(mod string) c19Run {
+		os.MkdirAll(mod, 0o755)
+		if _, err := os.Stat(filepath.Join(mod, "go.mod")); err != nil {
+			os.WriteFile(filepath.Join(mod, "go.mod"), []byte("module example.com/project\n\ngo 1.20\n"), 0o644)
+			os.WriteFile(filepath.Join(mod, "main.go"), []byte("package main\n\nfunc main() {}\n"), 0o644)
+		}
+		return c19Exec(c19Layout{src: src, cwd: mod, fileArg: filepath.Join(src, p.paths[0]), outArg: "gen", outAbs: filepath.Join(mod, "gen"), desc: "cwd=module root out=gen"}, mgen)
+	}
+	modA, modB := filepath.Join(base, "work", "project"), filepath.Join(base, "fresh", "project")
+	r1 := run(modA)
+	h1 := r1.hashes
+	// keep a copy of run 1's tree for the diff excerpt
+	first := filepath.Join(base, "run1copy")
+	if r1.err == "" {
+		for k := range h1 {
+			b, _ := os.ReadFile(filepath.Join(r1.out, filepath.FromSlash(k)))
+			os.MkdirAll(filepath.Dir(filepath.Join(first, filepath.FromSlash(k))), 0o755)
+			os.WriteFile(filepath.Join(first, filepath.FromSlash(k)), b, 0o644)
+		}
+	}
+	r2 := run(modA)
+	r3 := run(modB)
+	res.runs = 3
+	if r1.err != "" && r2.err != "" && r3.err != "" {
+		res.invalid = r1.err
+		res.ok = true
+		return res
+	}
+	r1.out, r1.desc = first, "run 1 (module tree without generated code)"
+	r2.desc, r3.desc = "run 2 (same command, tree kept)", "fresh copy of the module, one run"
+	for _, pr := range [][2]c19Run{{r1, r2}, {r1, r3}} {
+		if pr[0].err != pr[1].err {
+			res.what = "c19: compilation fails in some runs only: target=" + gen + " history=gomodule"
+			res.detail["error"] = pr[0].err + pr[1].err
+			return res
+		}
+		if f, ex := c19Diff(pr[0], pr[1]); f != "" {
+			res.what = "c19: a file written into an -out directory that already held output differs from the fresh-directory result: target=" + gen + " history=gomodule"
+			res.detail["first_differing_file"] = f
+			res.detail["diff"] = ex
+			res.detail["run_a"], res.detail["run_b"] = pr[0].desc, pr[1].desc
+			if len(files) <= 6 {
+				res.detail["program"] = files
+			}
+			return res
+		}
+	}
+	res.ok = true
+	return res
+}
+
+// c19UnimportedRefs: Go files under out that refer to `pkg.Name` without importing a package pkg
+// (and without pkg being declared anywhere in the file's package): the import was left for goimports
+// to find around the working directory — location-dependent by construction, whatever goimports found.
+func c19UnimportedRefs(out string) []string {
+	type gofile struct {
+		path string
+		f    *ast.File
+	}
+	byDir := map[string][]gofile{}
+	filepath.Walk(out, func(path string, info os.FileInfo, err error) error {
+		if err != nil || info.IsDir() || !strings.HasSuffix(path, ".go") {
+			return nil
+		}
+		if f, err := goparser.ParseFile(token.NewFileSet(), path, nil, 0); err == nil {
+			byDir[filepath.Dir(path)] = append(byDir[filepath.Dir(path)], gofile{path, f})
+		}
+		return nil
+	})
+	var bad []string
+	for _, fs := range byDir {
+		declared := map[string]bool{}
+		for _, gf := range fs {
+			for name := range gf.f.Scope.Objects {
+				declared[name] = true
+			}
+		}
+		for _, gf := range fs {
+			names := map[string]bool{}
+			for _, im := range gf.f.Imports {
+				pth, _ := strconv.Unquote(im.Path.Value)
+				n := pth
+				if i := strings.LastIndexByte(pth, '/'); i >= 0 {
+					n = pth[i+1:]
+				}
+				if im.Name != nil {
+					n = im.Name.Name
+				}
+				names[n] = true
+			}
+			seen := map[string]bool{}
+			ast.Inspect(gf.f, func(nd ast.Node) bool {
+				if se, ok := nd.(*ast.SelectorExpr); ok {
+					if id, ok := se.X.(*ast.Ident); ok && id.Obj == nil && !names[id.Name] && !declared[id.Name] && !seen[id.Name] {
+						seen[id.Name] = true
+						rel, _ := filepath.Rel(out, gf.path)
+						bad = append(bad, filepath.ToSlash(rel)+": "+id.Name+"."+se.Sel.Name)
+					}
+				}
+				return true
+			})
+		}
+	}
+	sort.Strings(bad)
+	return bad
+}
+
+
 // c19SubsetKeep drops the last service and the last scope of the root file (nothing refers to them).
 func c19SubsetKeep(p *c19Prog, keep []bool) []bool {
 	sub := append([]bool{}, keep...)
@@ -1698,6 +1906,12 @@ func c19CompileInto(base, src, rootRel, gen, out string) c19Run {
 
 // c19History runs one history variant of (program, keep, gen).
 func c19History(p *c19Prog, keep []bool, gen, variant string) c19Result {
+	if variant == "gomodule" {
+		if !strings.HasPrefix(gen, "go") {
+			return c19Result{invalid: "bad variant", detail: map[string]interface{}{}}
+		}
+		return c19GoModule(p, keep, gen)
+	}
 	res := c19Result{detail: map[string]interface{}{}}
 	line := fmt.Sprintf("c19hist %s %s %s %s", p.seedToken(), gen, variant, c19KeepString(keep))
 	res.detail["line"] = line
@@ -1982,9 +2196,27 @@ func runC19(r *Rng, n int) {
 			tasks = append(tasks, task{p, g, 8, R > 8, []int{0, 6, 8, 9, 10, 11, 3, 1}, ""})
 		}
 	}
+	// includes mentioned only inside containers of method / operation types: every base configuration,
+	// and for every go option set (alone and in pairs) the Go user's module layout, compiled twice
+	nCont := 1
+	if R > 8 {
+		nCont = 2
+	}
+	for i := 0; i < nCont; i++ {
+		p := c19GenerateCont(r.U64())
+		Stat("programs-container-only-includes")
+		for _, g := range c19BaseGens {
+			tasks = append(tasks, task{p, g, 4, R > 8, []int{0, 1, 6, 3}, ""})
+		}
+		for _, g := range sweep {
+			if strings.HasPrefix(g, "go") {
+				tasks = append(tasks, task{p, g, 0, false, nil, "gomodule"})
+			}
+		}
+	}
 	// output-directory history: the small programs (thorough: and one big one) for every base configuration
 	for _, t := range append([]task{}, tasks...) {
-		if t.hist == "" && t.p.small && !t.p.dup && !t.p.sib && t.gen == sweep[0] { // one marker task per small program
+		if t.hist == "" && t.p.small && !t.p.dup && !t.p.sib && !t.p.cont && t.gen == sweep[0] { // one marker task per small program
 			for _, g := range c19BaseGens {
 				for _, v := range c19HistVariants {
 					tasks = append(tasks, task{t.p, g, 0, false, nil, v})
